@@ -158,6 +158,7 @@ class Ctx:
         self.floor_cache = {}
         self.axioms_in_branch = False
         self.floor_lemmas = False
+        self.floor_fork = None
         self.floor_list = []
         self.inputs = {}  # name -> z3 const (harness inputs, for model extraction)
         self.notes = []
@@ -211,6 +212,25 @@ class Ctx:
         self.decisions.append(("b", d))
         self.pc.append(cond if d else z3.Not(cond))
         return d
+
+    def choose_index(self, conds):
+        """fork over mutually exclusive alternatives `conds` (z3 Bools); returns the index taken.
+        Alternatives none of which holds are outside the explored bound."""
+        i = len(self.decisions)
+        if i < len(self.preset):
+            d = self.preset[i]
+            assert d[0] == "c"
+            k = d[1]
+        else:
+            feas = [j for j, cnd in enumerate(conds) if self.feasible(cnd)]
+            if not feas:
+                raise PathAbort("bound", "no alternative of a bounded fork is feasible")
+            k = feas[0]
+            for other in reversed(feas[1:]):
+                self.pending.append(self.decisions + [("c", other)])
+        self.decisions.append(("c", k))
+        self.pc.append(conds[k])
+        return k
 
     def choose_int(self, expr, lo=None, hi=None):
         """fork over the feasible integer values of z3 term `expr` (Int or Real sort, the
@@ -421,6 +441,22 @@ def _nd(o):
     return isinstance(o, np.ndarray)
 
 
+def _qreal(q):
+    if z3.is_int_value(q):
+        return SymReal(z3.RealVal(q.as_long()), ie=q)
+    return SymReal(z3.ToReal(q), ie=q)
+
+
+def _undefined(why):
+    """the real code would produce inf/nan here: the value is undefined, i.e. the definedness
+    assumption of this path is False (paths are excluded from identities, or reported by
+    H.defined where definedness is the property)"""
+    ctx = Ctx.cur
+    ctx.assume.append(z3.BoolVal(False))
+    ctx.notes.append(why)
+    return SymReal(ctx.fresh("undef"))
+
+
 class SymReal:
     """a real-valued z3 term.  `ie` (optional) is an Int-sorted term equal to it."""
 
@@ -503,7 +539,7 @@ class SymReal:
             return s
         if z3.is_rational_value(b):
             if _is_zero(b):
-                raise PathAbort("unsupported", "division by literal zero")
+                return _undefined("division by zero")
         else:
             _assume(b != 0)
         if _is_zero(s.e):
@@ -516,7 +552,7 @@ class SymReal:
         a = R(o)
         if z3.is_rational_value(s.e):
             if _is_zero(s.e):
-                raise PathAbort("unsupported", "division by literal zero")
+                return _undefined("division by zero")
         else:
             _assume(s.e != 0)
         if _is_zero(a):
@@ -582,8 +618,21 @@ class SymReal:
         else:
             _assume(b != 0)
         q = c.fresh("q", "I")
-        x = c.fresh("quot")
         f = c.fresh("frac")
+        if c.floor_fork is not None:
+            # bounded variant: the quotient is forked over a stated small range and becomes a
+            # concrete integer on each path (pure real arithmetic afterwards, no Int unknowns)
+            lo_q, hi_q = c.floor_fork
+            ks = list(range(lo_q, hi_q + 1))
+            conds = [z3.If(b > 0, z3.And(a >= k * b, a < (k + 1) * b), z3.And(a <= k * b, a > (k + 1) * b)) for k in ks]
+            k = ks[c.choose_index(conds)]
+            qk = z3.IntVal(k)
+            c.side += [f >= 0, f < 1, a == (z3.RealVal(k) + f) * b]
+            FRAC_DEFS[f.get_id()] = (f, a / b)
+            c.floor_list.append((a, b, qk, f))
+            c.floor_cache[key] = (qk, f)
+            return qk, f
+        x = c.fresh("quot")
         c.side += [x * b == a, f == x - z3.ToReal(q), f >= 0, f < 1]
         FRAC_DEFS[f.get_id()] = (f, a / b)
         # always-true lemma instances relating this quotient to earlier ones with the same divisor
@@ -605,7 +654,7 @@ class SymReal:
         if _nd(o):
             return NotImplemented
         q, f = s._floor_q(o)
-        return SymReal(z3.ToReal(q), ie=q)
+        return _qreal(q)
 
     def __rfloordiv__(s, o):
         if _nd(o):
@@ -616,6 +665,9 @@ class SymReal:
         if _nd(o):
             return NotImplemented
         if s.ie is not None and isinstance(o, (int, np.integer)) and int(o) > 0:
+            if z3.is_int_value(s.ie):
+                k = s.ie.as_long() % int(o)
+                return SymReal(z3.RealVal(k), ie=z3.IntVal(k))
             m = s.ie % int(o)
             if int(o) == 2:  # parity as a boolean case split rather than integer arithmetic
                 return SymReal(z3.If(m == 0, z3.RealVal(0), z3.RealVal(1)), ie=m)
@@ -632,7 +684,7 @@ class SymReal:
         if _nd(o):
             return NotImplemented
         q, f = s._floor_q(o)
-        return SymReal(z3.ToReal(q), ie=q), SymReal(f * R(o))
+        return _qreal(q), SymReal(f * R(o))
 
     def __rdivmod__(s, o):
         if _nd(o):
